@@ -1,10 +1,11 @@
 #!/usr/bin/env python3
-"""usage: seedcheck.py <property> <out-dir>
+"""usage: seedcheck.py <property> <out-dir> [round-tag]
 Confirms each seeded change m<k> of a sub-agent in a scratch worktree (demo passes on the clean tree, the
 patch applies and builds, demo fails with it), runs the property's check against the patched scratch tree,
 and stores confirmed changes under /verif/seeded/<property>-m<k>/ with meta.json."""
 import json, os, re, subprocess, sys, shutil, glob
 prop, out = sys.argv[1], sys.argv[2]
+round_tag = sys.argv[3] if len(sys.argv) > 3 else ''  # e.g. 'r2' -> stored as <prop>-r2m<k>
 env = dict(os.environ, GOFLAGS='-mod=mod', GOPROXY='off', GOSUMDB='off', GOTOOLCHAIN='local')
 WT = '/tmp/wt-confirm'
 def sh(cmd, cwd=None, timeout=1800):
@@ -58,7 +59,7 @@ for diff in sorted(glob.glob(os.path.join(out, 'm*.diff'))):
     res['check_exit'] = rcc
     res['violations'] = [v[:260] for v in viol[:4]]
     if confirmed:
-        sd = f'/verif/seeded/{prop}-{k}'
+        sd = f'/verif/seeded/{prop}-{round_tag}{k}'
         os.makedirs(sd, exist_ok=True)
         shutil.copy(diff, os.path.join(sd, 'patch.diff'))
         shutil.copy(placed[0], os.path.join(sd, os.path.basename(placed[0])))
